@@ -77,9 +77,18 @@ func (zipBig) val(u uint64) wire.Val {
 func zipEntriesVal(es []gen.ZipArchEntry) wire.Val {
 	l := make([]wire.Val, len(es))
 	for i, e := range es {
-		l[i] = wire.L(wire.S(e.Name), zipU64(e.Declared), wire.Bytes(e.Content))
+		l[i] = wire.L(wire.S(e.Name), zipU64(e.Declared), wire.Bytes(e.Content), wire.Int(zipHeaderModeClass(e.Mode)))
 	}
 	return wire.L(l...)
+}
+
+// zipHeaderModeClass: what the header mode of an archive entry says (0 nothing or a regular
+// file, 1 directory, 2 symbolic link, 3 other); the implementation must not care.
+func zipHeaderModeClass(m os.FileMode) int {
+	if m == 0 {
+		return 0
+	}
+	return gen.ZipModeClass(m)
 }
 
 func zipTreeVal(ns []*gen.ZipTreeNode) wire.Val {
@@ -452,6 +461,7 @@ type zipJsEntry struct {
 	Name     string `json:"name_hex"`
 	Declared uint64 `json:"declared"`
 	Content  string `json:"content_hex"`
+	Mode     uint32 `json:"header_mode,omitempty"`
 }
 
 type zipJsNode struct {
@@ -498,7 +508,7 @@ func zipUnjsFiles(js []zipJsFile) []gen.ZipFileSpec {
 func zipJsEntries(es []gen.ZipArchEntry) []zipJsEntry {
 	out := make([]zipJsEntry, len(es))
 	for i, e := range es {
-		out[i] = zipJsEntry{zipHex(e.Name), e.Declared, hex.EncodeToString(e.Content)}
+		out[i] = zipJsEntry{zipHex(e.Name), e.Declared, hex.EncodeToString(e.Content), uint32(e.Mode)}
 	}
 	return out
 }
@@ -506,7 +516,7 @@ func zipJsEntries(es []gen.ZipArchEntry) []zipJsEntry {
 func zipUnjsEntries(js []zipJsEntry) []gen.ZipArchEntry {
 	out := make([]gen.ZipArchEntry, len(js))
 	for i, e := range js {
-		out[i] = gen.ZipArchEntry{Name: zipUnhex(e.Name), Declared: e.Declared, Content: []byte(zipUnhex(e.Content))}
+		out[i] = gen.ZipArchEntry{Name: zipUnhex(e.Name), Declared: e.Declared, Content: []byte(zipUnhex(e.Content)), Mode: os.FileMode(e.Mode)}
 	}
 	return out
 }
